@@ -1109,6 +1109,8 @@ pub struct PairCfg {
     pub client: TCfg,
     pub server: TCfg,
     pub cid_len: usize,
+    /// CID length of the server endpoint, when different from the client's (`cid_len`)
+    pub server_cid_len: Option<usize>,
     pub cid_lifetime: Option<Duration>,
     pub cert_len: usize,
     pub retry: bool,
@@ -1139,6 +1141,7 @@ impl Default for PairCfg {
             client: TCfg::default(),
             server: TCfg::default(),
             cid_len: 8,
+            server_cid_len: None,
             cid_lifetime: None,
             cert_len: 1500,
             retry: false,
@@ -1238,7 +1241,7 @@ impl<A: App> Pair<A> {
         let keylog = Arc::new(mtls::KeyLog::default());
         let sc = server_config(cfg, keylog.clone(), w.sim_time.clone());
         let (smu, cmu) = (cfg.server_max_udp, cfg.client_max_udp);
-        let s = w.add_node(1 + cfg.seed, cfg.cid_len, cfg.cid_lifetime, Some(Arc::new(sc)), |e| {
+        let s = w.add_node(1 + cfg.seed, cfg.server_cid_len.unwrap_or(cfg.cid_len), cfg.cid_lifetime, Some(Arc::new(sc)), |e| {
             if let Some(m) = smu {
                 e.max_udp_payload_size(m).unwrap();
             }
